@@ -37,6 +37,10 @@ pub struct Case06 {
     pub limit: u8,
     /// Mutations applied to page tokens seen during the walk (side requests, not part of it).
     pub blobs: Vec<BlobMut>,
+    /// Filter of the first request: 0 = none, k > 0 = min_confirmations (k-1) mod (len+1), len =
+    /// number of unstable best-chain blocks at that moment (so the request is inside the domain).
+    #[serde(default)]
+    pub conf: u8,
 }
 
 struct Walk {
@@ -249,14 +253,15 @@ impl Property for C06 {
             0u8..8,
             prop_oneof![8 => 1u8..=3, 1 => Just(0u8)],
             prop::collection::vec(blob, 0..4),
+            prop_oneof![3 => Just(0u8), 2 => 1u8..=7],
         )
-            .prop_map(|(mut hist, start, addr, limit, blobs)| {
+            .prop_map(|(mut hist, start, addr, limit, blobs, conf)| {
                 // Few scripts, so that one address collects many outputs.
                 hist.cfg.pool.truncate(3);
                 if !hist.cfg.pool.iter().any(|s| matches!(s, crate::chain::ScriptSpec::P2pkh(_) | crate::chain::ScriptSpec::P2wpkh(_) | crate::chain::ScriptSpec::P2tr(_) | crate::chain::ScriptSpec::P2sh(_) | crate::chain::ScriptSpec::P2wsh(_) | crate::chain::ScriptSpec::Wit { .. } | crate::chain::ScriptSpec::PrefixOf { .. })) {
                     hist.cfg.pool.push(crate::chain::ScriptSpec::P2pkh(0));
                 }
-                Case06 { hist, start, addr, limit, blobs }
+                Case06 { hist, start, addr, limit, blobs, conf }
             })
             .boxed()
     }
@@ -270,7 +275,7 @@ impl Property for C06 {
         Some(("page_blob", fuzz_blob))
     }
     fn rule(&self) -> String {
-        "Histories as in C01 over a pool of <= 3 scripts; at a generated point a page walk is started for one address (page size 1..3 through the hook, or the real 1000 limit) and one further page is requested after every following operation (blocks on the same chain, competing forks, stabilisation, threshold changes, upgrades), the rest at the end. Oracle: the concatenation equals the model ledger as of the first response's tip (each element once, descending heights, <= limit per page, every page naming that tip), or the walk ends in an explicit error and that tip has in fact left the tree. Mutated page tokens (bit flips, truncation/extension, foreign tip hashes, height and outpoint edits, random bytes) must yield an error or an answer that is a duplicate-free, ordered sub-sequence of the ledger of the tip it names; never a trap. Non-trivial: a walk of >= 2 pages with >= 1 state-changing operation between two page requests; distinct = (tree shape at start, pages, interleaved operations, expected size) hashes.".into()
+        "Histories as in C01 over a pool of <= 3 scripts; at a generated point a page walk is started for one address (first request without a filter or, in two of five cases, with min_confirmations 0..=number of unstable best-chain blocks, so that the snapshot is a cut view below the tip; page size 1..3 through the hook, or the real 1000 limit) and one further page is requested after every following operation (blocks on the same chain, competing forks, stabilisation, threshold changes, upgrades), the rest at the end. Oracle: the concatenation equals the model ledger as of the first response's tip (each element once, descending heights, <= limit per page, every page naming that tip), or the walk ends in an explicit error and that tip has in fact left the tree. Mutated page tokens (bit flips, truncation/extension, foreign tip hashes, height and outpoint edits, random bytes) must yield an error or an answer that is a duplicate-free, ordered sub-sequence of the ledger of the tip it names; never a trap. Non-trivial: a walk of >= 2 pages with >= 1 state-changing operation between two page requests; distinct = (tree shape at start, pages, interleaved operations, expected size) hashes.".into()
     }
     fn assumptions(&self) -> Vec<String> {
         vec!["the hook verif_get_utxos_with_limit calls the same internal function as the endpoint with a smaller page size".into()]
@@ -288,6 +293,8 @@ impl Property for C06 {
             "blob_answered",
             "walk_across_upgrade",
             "walk_multi_page_real_1000_limit",
+            "walk_started_with_min_confirmations",
+            "walk_of_a_cut_view_below_the_tip",
         ]
     }
     fn extra_cases(&self, tier: Tier) -> Vec<Case06> {
@@ -325,6 +332,7 @@ impl Property for C06 {
                 addr: 0,
                 limit: 0,
                 blobs: vec![BlobMut::Height(1), BlobMut::ForeignTip(0)],
+                conf: if k % 2 == 0 { 0 } else { 2 + (k % 3) as u8 },
             });
         }
         v
@@ -350,6 +358,7 @@ impl Property for C06 {
         let mut overtaken = false;
         let mut stabilised = false;
         let mut upgraded = false;
+        let mut filtered_c = 0u32;
         for (i, op) in case.hist.ops.iter().enumerate() {
             let info = w.apply(i, op);
             if step_errors(&info, &mut out) {
@@ -408,7 +417,18 @@ impl Property for C06 {
                     finished: false,
                     ended_by_error: false,
                 };
-                match request(&w, &wk, &Filter::None) {
+                let first = if case.conf == 0 {
+                    Filter::None
+                } else {
+                    let len = w.model.best_chain().len() as u32;
+                    Filter::MinConf((case.conf as u32 - 1) % (len + 1))
+                };
+                if let Filter::MinConf(c) = &first {
+                    if *c >= 1 {
+                        filtered_c = *c;
+                    }
+                }
+                match request(&w, &wk, &first) {
                     Ok(Ok(ans)) => {
                         wk.tip_hash = ans.tip_hash.clone();
                         wk.tip_height = ans.tip_height;
@@ -450,6 +470,12 @@ impl Property for C06 {
                 }
                 if upgraded {
                     out.class("walk_across_upgrade");
+                }
+                if filtered_c >= 1 {
+                    out.class("walk_started_with_min_confirmations");
+                    if wk.tip_id.map(|t| t != w.model.best_tip()).unwrap_or(false) && !wk.ended_by_error {
+                        out.class("walk_of_a_cut_view_below_the_tip");
+                    }
                 }
                 out.nontrivial(crate::engine::fnv(
                     format!("{}-{}-{}-{}-{}-{}", start_shape, wk.pages, wk.interleaved_ops, wk.expected.len(), overtaken, stabilised).as_bytes(),
